@@ -1,5 +1,6 @@
 SPECIFICATION Spec
 CONSTANTS
+  ParserMode <- ModeJsonnet
   Depth2 = TRUE
   Emit = TRUE
 INVARIANT InvIdealRoundTrip
